@@ -70,6 +70,9 @@ type Conn struct {
 
 	armedAt      int  // InPos when the read deadline was last armed
 	pendingStall bool // the next Read reports an expiry (if legal)
+	// expiries reported in a row at the same inbound position
+	stallPos, stallsInRow int
+	stallFlagged          bool
 	// StallsFired counts expiries delivered after progress.
 	StallsFired int
 
@@ -310,6 +313,11 @@ func (c *Conn) Read(p []byte) (int, error) {
 	w.Mu.Lock()
 	defer w.Mu.Unlock()
 	c.Reads++
+	if c.stallsInRow >= 2 && c.stallPos == c.InPos && !c.closed && !c.stallFlagged {
+		// the first expiry may follow progress, the second one did not
+		c.stallFlagged = true
+		w.Online = append(w.Online, fmt.Sprintf("bounded wait: Read on conn %d at inbound offset %d goes on after %d deadline expiries in a row without a byte in between", c.Idx, c.InPos, c.stallsInRow))
+	}
 	for {
 		if c.closed {
 			w.log(Event{Kind: "read", Conn: c.Idx, Off: c.InPos, Err: "closed"})
@@ -326,6 +334,7 @@ func (c *Conn) Read(p []byte) (int, error) {
 			if c.rdl && c.InPos > c.armedAt {
 				c.StallsFired++
 				c.InFaults++
+				c.noteStall()
 				w.log(Event{Kind: "read", Conn: c.Idx, Off: c.InPos, Err: "timeout after progress"})
 				return 0, &net.OpError{Op: "read", Net: "sim", Err: &timeoutError{"read"}}
 			}
@@ -401,6 +410,7 @@ func (c *Conn) Read(p []byte) (int, error) {
 			}
 			err = &net.OpError{Op: "read", Net: "sim", Err: &timeoutError{"read"}}
 			c.InFaults++
+			c.noteStall()
 		case "eof":
 			err = io.EOF
 			c.InFaults++
@@ -419,6 +429,15 @@ func (c *Conn) Read(p []byte) (int, error) {
 			w.Broker.delivered(c)
 		}
 		return n, err
+	}
+}
+
+// noteStall counts expiries in a row at one inbound position; Mu held.
+func (c *Conn) noteStall() {
+	if c.stallPos == c.InPos && c.stallsInRow > 0 {
+		c.stallsInRow++
+	} else {
+		c.stallPos, c.stallsInRow = c.InPos, 1
 	}
 }
 
